@@ -37,8 +37,11 @@ Drain(t, g, acc) ==
 RECURSIVE Deliver(_, _)
 Deliver(t, g) == IF t.s2c[g] = <<>> THEN t ELSE Deliver(DoCliRecv(t, g), g)
 
+\* While writes are held only one request is issued (the harness can see that one reach the
+\* held socket; further ones would sit in the client's scheduler, invisible to it).
 MCall(c) ==
   /\ CanAcquire(s, c)
+  /\ wh => s.wq[s.gen] = <<>>
   /\ LET t1 == DoEnqueue(DoStore(DoAcquire(s, c), c), c)
          g  == t1.call[c].g
          t2 == IF wh THEN t1 ELSE DoSrvRecv(DoWrite(t1, g), g)
